@@ -2,15 +2,21 @@
    PrFault.v shows "a failed device call makes the API call return an error".  This file adds,
    for EVERY fault schedule (s_faults s arbitrary) unless a statement says otherwise:
    1. the handle tables stay well-formed after any call with any outcome, and every open handle
-      can still be closed (C11_not_wedged, C11_close_file_after_fault, C11_close_dir_after_fault);
+      can still be closed, whatever the device does (C11_not_wedged, C11_close_file_after_fault,
+      C11_close_file_total, C11_close_file_whatever, C11_close_dir_after_fault);
    2. a read-only call - failed or not - changes nothing but the device-side bookkeeping and
-      keeps the one-block cache coherent, so the same call gives the specified answer when it is
-      retried without a further fault (C11_ro_call_state, C11_retry_find, C11_retry_iter);
+      keeps the one-block cache coherent (C11_ro_call_state, C11_label_nonblank,
+      C11_open_dir_lookup, C11_open_dir_cache), so the same call gives the specified answer when
+      it is retried without a further fault (C11_retry_find, C11_retry_iter);
    3. Mkdir: the clean-up after a failed directory-entry write (free_cluster_chain on the
-      cluster just allocated) cannot panic or hang, under a geometry precondition
-      (free_fresh_total, C11_reports_mkdir...);
-   4. the device writes of a faulted run of a FAT-level function are a PREFIX of the writes of
-      the fault-free run from the same state (the C11_bystander_blocks theorems). *)
+      cluster just allocated) cannot panic or hang (free_fresh_total), and Mkdir as a whole
+      reports - always Err after a device failure - under a precondition on geometry and FAT
+      consistency (C11_reports_mkdir; the invariant carried through alloc_cluster and
+      write_new_directory_entry under arbitrary faults is MI, section 3b);
+   4. the device writes of a faulted run of a FAT-level or directory-level function are a PREFIX
+      of the writes of the fault-free run from the same state, and a run that returned Ok IS the
+      fault-free run (pfx, pfx_bystander, pfx_ok_is_fault_free, the C11_bystander_blocks
+      theorems). *)
 From Coq Require Import NArith ZArith List Bool Lia Arith ZifyClasses ZifyInst Zify FMapPositive.
 From SdFs Require Import FsTypes FsBase FsFat FsMgr FsLemmas PrBase PrFat PrAlloc PrDir PrFault
   PrAllocEffect PrHandles PrModes.
@@ -673,6 +679,147 @@ Proof.
     + rewrite <- (Hb Hco).
       repeat match type of E with context [if ?b then _ else _] => destruct b end;
         inversion E; subst; auto.
+Qed.
+
+(* ---- 3.0b closing a file never panics or hangs when the file records are well-formed ---- *)
+(* the panics of flush_file are about the file RECORD (a non-empty file without a first
+   cluster, a timestamp that cannot be encoded, a slot offset outside the block) - none is
+   caused by the device.  With well-formed records close_file is total under ANY schedule. *)
+Definition ts_fat_ok (t : ts) : Prop := t_month t <> 255 /\ t_day t <> 255.
+Definition file_rec_ok (f : fileinfo) : Prop :=
+  (e_size (f_entry f) = 0 \/ e_cluster (f_entry f) <> 0) /\ e_offset (f_entry f) + 32 <= 512 /\
+  ts_fat_ok (e_ctime (f_entry f)) /\ ts_fat_ok (e_mtime (f_entry f)).
+
+Lemma ts_to_fat_total t s : ts_fat_ok t -> exists l, ts_to_fat t s = (Ok l, s).
+Proof.
+  intros (H1 & H2). unfold ts_to_fat.
+  replace (t_month t =? 255) with false by (symmetry; apply N.eqb_neq; exact H1).
+  replace (t_day t =? 255) with false by (symmetry; apply N.eqb_neq; exact H2).
+  cbn [orb]. eexists. reflexivity.
+Qed.
+Lemma serialize_total fat32 e s : ts_fat_ok (e_ctime e) -> ts_fat_ok (e_mtime e) ->
+  exists l, serialize fat32 e s = (Ok l, s).
+Proof.
+  intros H1 H2. unfold serialize.
+  destruct (ts_to_fat_total (e_ctime e) s H1) as (l1 & E1). rewrite (bind_ok _ _ _ _ _ E1).
+  destruct (ts_to_fat_total (e_mtime e) s H2) as (l2 & E2). rewrite (bind_ok _ _ _ _ _ E2).
+  eexists. reflexivity.
+Qed.
+
+Lemma tail_write_np f s o s' i : s_tag s = Some i ->
+  (cache_modify f ;;; write_back) s = (o, s') -> no_panic o /\ s_vols s' = s_vols s.
+Proof.
+  intros Ht E. unfold bind, cache_modify, modify in E.
+  destruct (write_back_any _ _ _ E) as (M & W). cbn [s_tag set_s_cache] in W. rewrite Ht in W.
+  split; [|exact (same_mgr_vols_eq _ _ M)].
+  destruct W as [(-> & _)|(-> & _)]; split; discriminate.
+Qed.
+
+Lemma write_entry_np v e s o s' :
+  e_offset e + 32 <= 512 -> ts_fat_ok (e_ctime e) -> ts_fat_ok (e_mtime e) ->
+  write_entry_to_disk v e s = (o, s') -> no_panic o.
+Proof.
+  intros Ho H1 H2 E. unfold write_entry_to_disk in E. unfold bind at 1 in E.
+  destruct (cache_read (e_block e) s) as [o1 s1] eqn:E1.
+  destruct (cache_read_any _ _ _ _ E1) as (_ & _ & _ & [(-> & _)|(b & -> & T & _)]).
+  { inversion E; subst. split; discriminate. }
+  destruct (serialize_total (v_fat32 v) e s1 H1 H2) as (l & Es). rewrite (bind_ok _ _ _ _ _ Es) in E.
+  replace (512 <? e_offset e + 32) with false in E by (symmetry; apply N.ltb_ge; exact Ho).
+  exact (proj1 (tail_write_np _ _ _ _ _ T E)).
+Qed.
+
+Lemma update_info_np vi v s o s' : nth_error (s_vols s) vi = Some v ->
+  update_info_sector vi s = (o, s') -> no_panic o /\ s_vols s' = s_vols s.
+Proof.
+  intros Hv E. unfold update_info_sector in E. rewrite (bind_ok _ _ _ _ _ (get_vol_some vi v s Hv)) in E.
+  destruct (negb (v_fat32 v)); [inversion E; subst; split; [split; discriminate|reflexivity]|].
+  assert (Hgo : forall fc nf,
+    (_ <- cache_read (v_info v) ;;
+     (match fc with Some c => cache_modify (fun b => set_bytes b 488 (bytes32 c)) | None => ret tt end) ;;;
+     (match nf with Some c => cache_modify (fun b => set_bytes b 492 (bytes32 c)) | None => ret tt end) ;;;
+     write_back) s = (o, s') -> no_panic o /\ s_vols s' = s_vols s).
+  { intros fc nf E0. unfold bind at 1 in E0.
+    destruct (cache_read (v_info v) s) as [o1 s1] eqn:E1.
+    destruct (cache_read_any _ _ _ _ E1) as (M1 & _ & _ & [(-> & _)|(b & -> & T & _)]).
+    { inversion E0; subst. split; [split; discriminate|exact (same_mgr_vols_eq _ _ M1)]. }
+    assert (Hwb : forall s2, s_tag s2 = Some (v_info v) -> s_vols s2 = s_vols s1 -> write_back s2 = (o, s') ->
+              no_panic o /\ s_vols s' = s_vols s).
+    { intros s2 T2 V2 E2. destruct (write_back_any _ _ _ E2) as (M & W). rewrite T2 in W.
+      split; [destruct W as [(-> & _)|(-> & _)]; split; discriminate|].
+      rewrite (same_mgr_vols_eq _ _ M), V2. exact (same_mgr_vols_eq _ _ M1). }
+    destruct fc as [c1|], nf as [c2|]; unfold bind, cache_modify, modify, ret in E0;
+      (eapply Hwb; [| |exact E0]; [exact T|reflexivity]). }
+  destruct (v_free v) as [fc|], (v_next_free v) as [nf|].
+  - exact (Hgo (Some fc) (Some nf) E).
+  - exact (Hgo (Some fc) None E).
+  - exact (Hgo None (Some nf) E).
+  - inversion E; subst. split; [split; discriminate|reflexivity].
+Qed.
+
+Lemma flush_file_np h s o s' : Forall file_rec_ok (s_files s) ->
+  flush_file h s = (o, s') -> no_panic o.
+Proof.
+  intros Hok E. unfold flush_file, locked in E. rewrite bind_get in E.
+  destruct (s_lock s); [inversion E; subst; split; discriminate|].
+  unfold bind at 1 in E. rewrite get_file_by_id_eq in E.
+  destruct (find_idx (fun f => f_id f =? h) (s_files s) 0) as [fi|] eqn:Ef;
+    [|inversion E; subst; split; discriminate].
+  apply find_idx_some in Ef. destruct Ef as (_ & _ & f & Hf & _). rewrite Nat.sub_0_r in Hf.
+  unfold bind at 1 in E. rewrite get_file_eq, Hf in E.
+  assert (Hfo : file_rec_ok f) by (rewrite Forall_forall in Hok; apply Hok; eapply nth_error_In; exact Hf).
+  destruct Hfo as (F1 & F2 & F3 & F4).
+  destruct (f_dirty f); [|inversion E; subst; split; discriminate].
+  unfold bind at 1 in E. rewrite get_volume_by_id_eq in E.
+  destruct (find_idx (fun v => v_id v =? f_vol f) (s_vols s) 0) as [vi|] eqn:Ev;
+    [|inversion E; subst; split; discriminate].
+  apply find_idx_some in Ev. destruct Ev as (_ & _ & v & Hv & _). rewrite Nat.sub_0_r in Hv.
+  unfold bind at 1 in E. destruct (update_info_sector vi s) as [o1 s1] eqn:E1.
+  destruct (update_info_np vi v s o1 s1 Hv E1) as ((N1 & N2) & V1).
+  destruct o1 as [u|e| |]; try contradiction; [|inversion E; subst; split; discriminate].
+  assert (Hchk : negb (e_size (f_entry f) =? 0) && (e_cluster (f_entry f) =? 0) = false).
+  { destruct F1 as [F1|F1]; [rewrite F1; reflexivity|].
+    apply andb_false_iff. right. apply N.eqb_neq. exact F1. }
+  rewrite Hchk in E.
+  assert (Hv1 : nth_error (s_vols s1) vi = Some v) by (rewrite V1; exact Hv).
+  rewrite (bind_ok _ _ _ _ _ (get_vol_some vi v s1 Hv1)) in E.
+  exact (write_entry_np v (f_entry f) s1 o s' F2 F3 F4 E).
+Qed.
+
+Theorem C11_close_file_total : forall h s out s',
+  Forall file_rec_ok (s_files s) -> step (CloseFile h) s = (out, s') -> no_panic out.
+Proof.
+  intros h s out s' Hok E. cbn [step] in E. unfold lift, close_file in E.
+  unfold bind at 1 2 in E. unfold try in E.
+  destruct (flush_file h s) as [o1 s1] eqn:E1.
+  destruct (flush_file_np h s o1 s1 Hok E1) as (N1 & N2).
+  assert (Htail : forall r : unit + err,
+    (let (o, s2) := locked (fi <- get_file_by_id h ;;
+                            modify (fun s => set_s_files s (swap_remove (s_files s) fi)) ;;;
+                            match r with inl _ => ret tt | inr e => fail e end) s1 in
+     match o with Ok a => ret RUnit s2 | Err e => (Err e, s2) | Panic => (Panic, s2) | OutOfFuel => (OutOfFuel, s2) end)
+    = (out, s') -> no_panic out).
+  { intros r E2. unfold locked in E2. rewrite bind_get in E2.
+    destruct (s_lock s1); [inversion E2; subst; split; discriminate|].
+    unfold bind at 1 in E2. rewrite get_file_by_id_eq in E2.
+    destruct (find_idx _ _ _); [|inversion E2; subst; split; discriminate].
+    unfold bind, modify, ret, fail in E2. destruct r; inversion E2; subst; split; discriminate. }
+  destruct o1 as [u|e| |]; try contradiction.
+  - exact (Htail (inl u) E).
+  - exact (Htail (inr e) E).
+Qed.
+
+(* "every handle can still be closed", with no proviso left: whatever the device does *)
+Corollary C11_close_file_whatever : forall h s out s',
+  s_lock s = false -> NoDup (fids s) -> In h (fids s) -> Forall file_rec_ok (s_files s) ->
+  step (CloseFile h) s = (out, s') ->
+  (out = Ok RUnit \/ exists e, out = Err e) /\
+  (exists i, nth_error (fids s) i = Some h /\ fids s' = swap_remove (fids s) i) /\
+  no_file h s' /\ (forall x, In x (fids s) -> x <> h -> In x (fids s')) /\
+  vids s' = vids s /\ dids s' = dids s /\ s_lock s' = false /\
+  (fault_fired s s' -> exists e, out = Err e).
+Proof.
+  intros h s out s' Hl Hnd Hin Hok E. destruct (C11_close_file_total h s out s' Hok E) as (N1 & N2).
+  exact (C11_close_file_after_fault h s out s' Hl Hnd Hin E N1 N2).
 Qed.
 
 (* ---- 3.1 the cluster alloc_cluster returns is a data cluster, under ANY schedule ---- *)
@@ -2119,9 +2266,9 @@ Proof.
   - exact A10c.
   - constructor.
     + exact A10l.
-    + rewrite Hnew. exact (proj1 (lnk_eof v)).
+    + rewrite Hnew. exact (proj1 (lnk_eof v fsz Hroot16)).
     + intros j n Hj Hz Hl. destruct (N.eq_dec j c) as [->|Hne].
-      * rewrite Hnew, (proj1 (lnk_eof v)) in Hl. discriminate.
+      * rewrite Hnew, (proj1 (lnk_eof v fsz Hroot16)) in Hl. discriminate.
       * rewrite (Hoth j Hj Hne) in Hz, Hl. destruct (Hcl j n Hj Hz Hl) as (N1 & N2).
         assert (Hnc : n <> c) by (intros ->; contradiction).
         split; [exact N1|]. split; [exact Hnc|]. rewrite (Hoth n N1 Hnc). exact N2.
@@ -2181,8 +2328,10 @@ Proof.
     - apply rep_find_directory_entry. reflexivity.
     - apply find_keeps_pre.
     - intros a. apply repS_of_rep. rep_auto.
-    - intros e. destruct e; try (apply repS_of_rep; rep_auto).
-      apply make_dir_reports; assumption.
+    - intros e.
+      assert (Hcase : e = NotFound \/ e <> NotFound) by (destruct e; auto; right; discriminate).
+      destruct Hcase as [->|Hne]; [apply make_dir_reports; assumption|].
+      apply repS_of_rep. destruct e; try contradiction; rep_auto.
     - intros s2 r2 s2' _ H. inversion H; subst. eauto. }
   destruct Hrep as (n1 & X1 & F1).
   destruct o1 as [a|e| |]; inversion E; subst.
@@ -2191,3 +2340,144 @@ Proof.
   - rewrite (ext_unique _ _ _ _ Xn X1) in Hf. destruct (F1 Hf) as (e & He). discriminate.
   - rewrite (ext_unique _ _ _ _ Xn X1) in Hf. destruct (F1 Hf) as (e & He). discriminate.
 Qed.
+
+(* ================================================================== the hypotheses are satisfiable *)
+(* ---- 1. tables; a close whose flush meets a device failure ---- *)
+Example ex_tables_ok : tables_ok 0 (init_state (PositiveMap.empty block) 5 1 4 4 [0; 3]).
+Proof.
+  split; [apply handles_ok_init; reflexivity|]. unfold within_limits. cbn. repeat split; lia.
+Qed.
+
+(* a dirty file (handle 9) on a FAT16 volume; the very first device call fails *)
+Definition exc_state : st :=
+  set_s_files (set_s_vols (init_state wx_disk 0 1 4 4 [0]) [wx_vol]) [set_f_dirty wx_file true].
+
+Example ex_close_after_fault :
+  s_lock exc_state = false /\ NoDup (fids exc_state) /\ In 9 (fids exc_state) /\
+  Forall file_rec_ok (s_files exc_state) /\
+  fst (step (CloseFile 9) exc_state) = Err DeviceError /\
+  s_files (snd (step (CloseFile 9) exc_state)) = [] /\
+  fault_fired exc_state (snd (step (CloseFile 9) exc_state)).
+Proof.
+  split; [reflexivity|]. split; [repeat constructor; intros []|]. split; [left; reflexivity|].
+  split.
+  { constructor; [|constructor]. unfold file_rec_ok, ts_fat_ok. cbn.
+    split; [right; discriminate|]. split; [lia|]. repeat split; discriminate. }
+  split; [vm_compute; reflexivity|]. split; [vm_compute; reflexivity|].
+  exists [DReadFail 290]. split; [vm_compute; reflexivity|]. exists 290. left. left. reflexivity.
+Qed.
+
+(* ---- 2. a lookup that fails on a transient fault and succeeds when retried ---- *)
+Definition exr_state : st :=
+  mk_st exd_disk zero_block None [exd_vol] [mk_dirinfo 7 0 2] [] 8 0 0 [0] [] false 1 1 1.
+
+Example ex_retry_find :
+  resolves exr_state 7 0 (mk_dirinfo 7 0 2) 0 exd_vol /\ vol_ok exd_vol /\ cache_ok exr_state /\
+  sfn_of_str [65] = Some exd_name /\
+  dir_blocks (s_disk exr_state) exd_vol 2 = Some [30; 31; 32; 33] /\
+  fst (step (Find 7 [65]) exr_state) = Err DeviceError /\
+  no_faults (snd (step (Find 7 [65]) exr_state)) /\
+  exists e, fst (step (Find 7 [65]) (snd (step (Find 7 [65]) exr_state))) = Ok (REntry e) /\
+            e_name e = exd_name.
+Proof.
+  split; [repeat split; reflexivity|]. split; [exact (proj1 dir_example)|].
+  split; [intros i H; discriminate H|]. split; [reflexivity|]. split; [vm_compute; reflexivity|].
+  split; [vm_compute; reflexivity|].
+  split; [intros n H; vm_compute in H; destruct H as [<-|[]]; vm_compute; reflexivity|].
+  eexists. split; vm_compute; reflexivity.
+Qed.
+
+(* ---- 3. Mkdir on a blank FAT16 volume; the write of the new directory entry fails ---- *)
+Lemma nth_repeat_0 : forall n i, nth i (repeat 0 n) 0 = 0.
+Proof. induction n as [|n IH]; intros [|i]; cbn; auto. Qed.
+Lemma le16_zero_block off : le16 zero_block off = 0.
+Proof. unfold le16, get8, zero_block. rewrite !nth_repeat_0. reflexivity. Qed.
+Lemma disk_get_empty i : disk_get (PositiveMap.empty block) i = zero_block.
+Proof. unfold disk_get. rewrite PositiveMap.gempty. reflexivity. Qed.
+
+Definition exm_vol : vol := ex_vol false None.
+Definition exm_state (faults : list N) : st :=
+  mk_st (PositiveMap.empty block) zero_block None [exm_vol] [mk_dirinfo 7 0 CL_ROOT] [] 8 0 0 faults [] false 1 4 4.
+
+Lemma exm_ent faults j : ent exm_vol (s_disk (exm_state faults)) j = 0.
+Proof.
+  unfold ent, fat_get, PrFat.fat_entry. cbn [s_disk exm_state]. rewrite disk_get_empty.
+  change (v_fat32 exm_vol) with false. cbv iota. apply le16_zero_block.
+Qed.
+
+Example ex_mkdir_pre faults :
+  resolves (exm_state faults) 7 0 (mk_dirinfo 7 0 CL_ROOT) 0 exm_vol /\
+  fat_layout exm_vol 200 /\ PrCrash.fat_fits exm_vol /\
+  (v_fat32 exm_vol = false -> v_fat_start exm_vol + 200 <= v_root_block exm_vol) /\
+  mkdir_pre 0 exm_vol 200 CL_ROOT (exm_state faults).
+Proof.
+  split; [repeat split; reflexivity|]. split; [apply ex_layout|].
+  split; [unfold PrCrash.fat_fits; cbn; lia|]. split; [intros _; cbn; lia|].
+  constructor.
+  - reflexivity.
+  - intros c H. discriminate H.
+  - intros i H. discriminate H.
+  - intros k Hk. cbn [s_disk exm_state]. rewrite disk_get_empty. apply repeat_length.
+  - intros j n Hj Hz. rewrite exm_ent in Hz. contradiction.
+  - left. split; reflexivity.
+Qed.
+
+(* the 45th device call (the write of the directory block that holds the new entry) fails:
+   the clean-up runs (it re-reads the FAT sector and frees the cluster) and the call returns
+   the error; with a second failure inside the clean-up it still returns the error *)
+Example ex_mkdir_faulted :
+  fst (run_op (Mkdir 7 [68]) (exm_state [44])) = Err DeviceError /\
+  fault_fired (exm_state [44]) (snd (run_op (Mkdir 7 [68]) (exm_state [44]))) /\
+  fst (run_op (Mkdir 7 [68]) (exm_state [44; 46])) = Err DeviceError /\
+  fst (run_op (Mkdir 7 [68]) (exm_state [])) = Ok RUnit.
+Proof.
+  split; [vm_compute; reflexivity|]. split; [|split; vm_compute; reflexivity].
+  exists (s_trace (snd (run_op (Mkdir 7 [68]) (exm_state [44])))).
+  split; [unfold ext; cbn [s_trace exm_state]; rewrite app_nil_r; reflexivity|].
+  exists 2948. right. vm_compute. do 3 right. left. reflexivity.
+Qed.
+
+(* ---- 4. a faulted allocation: the write to the second FAT copy fails ---- *)
+Definition exb_state : st :=
+  mk_st (PositiveMap.empty block) zero_block None [ex_vol false None] [] [] 0 0 0 [2] [] false 1 1 1.
+
+Example ex_bystander :
+  fst (alloc_cluster 0 None false exb_state) = Err DeviceError /\
+  map fst (rev (dwr (s_trace (snd (alloc_cluster 0 None false exb_state))))) = [2080] /\
+  fst (alloc_cluster 0 None false (nf exb_state)) = Ok 2 /\
+  map fst (rev (dwr (s_trace (snd (alloc_cluster 0 None false (nf exb_state)))))) = [2080; 2448].
+Proof. repeat split; vm_compute; reflexivity. Qed.
+
+(* ================================================================== assumptions *)
+Print Assumptions C11_not_wedged.
+Print Assumptions C11_close_file_after_fault.
+Print Assumptions C11_close_dir_after_fault.
+Print Assumptions C11_close_file_total.
+Print Assumptions C11_close_file_whatever.
+Print Assumptions C11_ro_call_state.
+Print Assumptions C11_label_nonblank.
+Print Assumptions C11_open_dir_cache.
+Print Assumptions C11_open_dir_lookup.
+Print Assumptions C11_retry_find.
+Print Assumptions C11_retry_iter.
+Print Assumptions alloc_range_any.
+Print Assumptions free_fresh_total.
+Print Assumptions make_dir_reports.
+Print Assumptions C11_reports_mkdir.
+Print Assumptions pfx_bystander.
+Print Assumptions pfx_ok_is_fault_free.
+Print Assumptions C11_bystander_blocks_update_fat.
+Print Assumptions C11_bystander_blocks_alloc_cluster.
+Print Assumptions C11_bystander_blocks_truncate.
+Print Assumptions C11_bystander_blocks_free.
+Print Assumptions C11_bystander_blocks_write_entry.
+Print Assumptions C11_bystander_blocks_info_sector.
+Print Assumptions C11_bystander_blocks_zero_cluster.
+Print Assumptions C11_bystander_blocks_find.
+Print Assumptions C11_bystander_blocks_delete_entry.
+Print Assumptions C11_bystander_blocks_new_entry.
+Print Assumptions ex_close_after_fault.
+Print Assumptions ex_retry_find.
+Print Assumptions ex_mkdir_pre.
+Print Assumptions ex_mkdir_faulted.
+Print Assumptions ex_bystander.
